@@ -278,7 +278,8 @@ pub fn iface_name(rng: &mut Rng) -> String {
         let mut s = String::new();
         s.push(if first { if rng.chance(1, 2) { pick_b(rng, LOWER) } else { pick_b(rng, UPPER) } } else { alnum(rng) });
         for _ in 0..rng.below(4) {
-            for _ in 0..rng.below(3).saturating_sub(1) {
+            // runs of dashes are legal inside a segment
+            for _ in 0..[0usize, 0, 0, 1, 1, 2, 3][rng.below(7)] {
                 s.push('-');
             }
             s.push(alnum(rng));
